@@ -80,6 +80,7 @@ type world struct {
 	inCompose  bool
 	gcd        []string
 	vanished   []string // resources the environment removed in the middle of this reconcile
+	midEnv     bool     // the environment removed / grabbed a resource in the middle of some reconcile of this run
 	start      map[string]any
 	quiet      bool
 	prevOK     bool // previous reconcile: ok, fault free, no env step since it started
@@ -404,6 +405,7 @@ func (w *world) env(e replay.Entry) {
 		w.s.Remove(cdKey(w.rev[e.O]))
 		if w.al != nil {
 			w.vanished = append(w.vanished, e.O)
+			w.midEnv = true
 		}
 	case "markdeleted":
 		k := cdKey(w.rev[e.O])
@@ -742,6 +744,7 @@ type summary struct {
 	Drift      int            `json:"drift"`
 	DriftRuns  int            `json:"drift_runs"`
 	SweepRuns  int            `json:"sweep_runs"`
+	Again      int            `json:"again_runs"`
 	DriftByAbs map[string]int `json:"drift_by_abs"`
 	Counts     map[string]int `json:"counts"`
 	Samples    []any          `json:"samples"`
@@ -781,8 +784,15 @@ func run(tw *trace.Writer, id string, hist []replay.Entry, variant simapi.Decisi
 	if drift > 0 {
 		sum.DriftRuns++
 	}
+	lastMidEnv = w.midEnv
 	return calls
 }
+
+// lastMidEnv: the last run had a resource removed by the environment in the middle of a reconcile. What the code does then
+// depends on the order in which it meets the resources, and it ranges over Go maps: such runs are repeated (againN times).
+var lastMidEnv bool
+
+const againN = 5
 
 func main() {
 	scenarios := flag.String("scenarios", "", "NDJSON file of TLC histories")
@@ -827,6 +837,7 @@ func main() {
 			Hist    json.RawMessage `json:"hist"`
 			Variant string          `json:"variant"`
 			Extra   *int            `json:"extra"`
+			Again   int             `json:"again"`
 			Sweep   *struct {
 				Rec     int    `json:"rec"`
 				Idx     int    `json:"idx"`
@@ -867,6 +878,9 @@ func main() {
 				ex = *sc.Extra
 			}
 			run(tw, sc.ID, hist, v, sw, ex, sum)
+			for k := 1; k <= sc.Again; k++ {
+				run(tw, fmt.Sprintf("%s/again-%d", sc.ID, k), hist, v, sw, ex, sum)
+			}
 			continue
 		}
 		hasFail := false
@@ -888,6 +902,12 @@ func main() {
 				id += "/" + v.String()
 			}
 			calls := run(tw, id, hist, v, nil, *extraN, sum)
+			if lastMidEnv {
+				for k := 1; k <= againN; k++ {
+					run(tw, fmt.Sprintf("%s/again-%d", id, k), hist, v, nil, *extraN, sum)
+					sum.Again++
+				}
+			}
 			if i < *sweepN && v == vs[0] {
 				for r, n := range calls {
 					for k := 1; k <= n; k++ {
